@@ -1606,9 +1606,10 @@ rrul_fill_dly(echs_instant_t *restrict tgt, size_t nti, rrulsp_t rr)
 		/* because we're subtractive, allow all days in the wd_mask if
 		 * all of the actual mask days are 0 */
 		wd_mask |= 0b11111110U;
-	} else if (rr->inter == 1U) {
+	} else if (rr->inter == 1U && !bi31_has_bits_p(rr->dom)) {
 		/* aaaah, what they want in fact is a weekly schedule
-		 * with the days in wd_mask */
+		 * with the days in wd_mask, which knows nothing about
+		 * BYMONTHDAY though */
 		return rrul_fill_wly(tgt, nti, rr);
 	}
 
